@@ -1,5 +1,5 @@
 (* C10 -- streaming bodies make progress under every producer/consumer interleaving. *)
-From HS Require Import Lib.Base Model.Chunker Model.ChunkerConc Proofs.ChunkerP Proofs.ConcP.
+From HS Require Import Lib.Base Model.Chunker Model.ChunkerConc Proofs.ChunkerP Proofs.ConcP Proofs.ChunkerHist.
 
 (* The transition system: the producer runs its program one critical section at a time and owes
    the wake-up of the waker it took as a separate step (the real code wakes after unlocking); the
@@ -41,6 +41,24 @@ Theorem c10_bounded_end : forall ready s rb, Good s -> c_w s = WGone -> c_st s =
   (exists rs0, rs = rs0 ++ [(RPoll (Some None), [])]).
 Proof. exact drain_finished. Qed.
 
+(* Every schedule executes the sequential operations of some history (the producer's program
+   interleaved with the consumer's polls and drop): the shared state it reaches is the state that
+   history reaches. Every theorem about all histories therefore holds under all interleavings. *)
+Theorem c10_schedules_are_histories : forall cs k kf, krun k cs = Some kf ->
+  k_s kf = fst (crun (k_s k) (kops k cs)).
+Proof. exact schedule_is_history. Qed.
+
+(* "it receives everything flushed before a clean end", under every interleaving: what has been
+   delivered is always a prefix of what was accepted (with c08_clean_end_complete: all of it at a
+   clean end), and the shared state keeps the general invariant. *)
+Theorem c10_prefix_under_all_schedules : forall cap prog sched k, 0 < cap -> krun (kinit cap prog) sched = Some k ->
+  let '(sf, rs) := crun (cinit cap) (kops (kinit cap prog) sched) in
+  k_s k = sf /\ exists rest, acc_total (kops (kinit cap prog) sched) rs = del_total rs ++ rest.
+Proof. exact schedule_prefix. Qed.
+Theorem c10_invariant_under_all_schedules : forall cap prog sched k, 0 < cap ->
+  krun (kinit cap prog) sched = Some k -> Gen (k_s k).
+Proof. exact schedule_gen. Qed.
+
 (* non-vacuity: a schedule in which the consumer parks, the producer publishes, and the wake-up
    is delivered only after a further consumer step *)
 Example c10_instance :
@@ -55,3 +73,6 @@ Print Assumptions c10_woken_after_termination.
 Print Assumptions c10_not_asleep_on_data.
 Print Assumptions c10_publish_then_wake.
 Print Assumptions c10_bounded_end.
+Print Assumptions c10_schedules_are_histories.
+Print Assumptions c10_prefix_under_all_schedules.
+Print Assumptions c10_invariant_under_all_schedules.
